@@ -43,10 +43,10 @@ Definition same_as_schema (s : schema) (v : value) (c : ctree) : bool :=
   | None => false
   end.
 
-(** c04.spec ('SchemaName descriptor value) -> 'err | (cell refines? schema-serialisation-equal?) *)
+(** c04.spec ('SchemaName go-type-name descriptor value) -> 'err | (cell refines? schema-serialisation-equal?) *)
 Definition run_spec (a : sx) : sx :=
   match a with
-  | SL [SA nm; d; v] =>
+  | SL [SA nm; _; d; v] =>
       match ty_of d, val_of v with
       | Some t, Some x =>
           match (if String.eqb nm "prim" then prim_schema t else lookup nm schema_table) with
@@ -86,7 +86,7 @@ Definition run_extmsg (a : sx) : sx :=
   | _ => sx_err "c04.extmsg"
   end.
 
-Definition run (name : string) (a : sx) : sx :=
+Definition run04 (name : string) (a : sx) : sx :=
   if String.eqb name "c04.spec" then run_spec a
   else if String.eqb name "c04.extmsg" then run_extmsg a
-  else H03.run name a.
+  else H03.run03 name a.
